@@ -182,7 +182,9 @@ def run_job(job):
     argv = ["lian", job.get("cmd", "lang")]
     if job.get("force", True):
         argv.append("-f")
-    argv += ["-l", job["lang"], "-w", wsarg]
+    argv += ["-l", job["lang"]]
+    if not job.get("no_w"):
+        argv += ["-w", wsarg]
     if job.get("settings") is not None:
         sdir = os.path.join(d, "settings")
         if os.path.isdir(sdir):
@@ -214,7 +216,19 @@ def run_job(job):
             if hook:
                 import importlib
                 importlib.import_module(hook).install(M, job)
-            lian = M.Lian().run()
+            if job.get("markers"):
+                try:
+                    os.stat("/__LIAN_VERIF_BEGIN__")
+                except OSError:
+                    pass
+            try:
+                lian = M.Lian().run()
+            finally:
+                if job.get("markers"):
+                    try:
+                        os.stat("/__LIAN_VERIF_END__")
+                    except OSError:
+                        pass
     except SystemExit as e:
         res["exit"] = "SystemExit:%s" % (e.code,)
     except BaseException as e:  # noqa
